@@ -714,7 +714,7 @@ class Query:
         cls.log = []
 
 
-def solve_words(name, langs, extra=None, timeout_ms=60000):
+def solve_words(name, langs, extra=None, timeout_ms=60000, exclude=()):
     """Is there a tuple of strings (x0..xn-1) with xi in langs[i] (regex ASTs) and extra(xs) (z3 constraints)?
     Returns (status, [strings]|None).  Alphabet-reduced: witnesses are built from minterm representatives."""
     comp_ = Compiler(langs)
@@ -726,6 +726,8 @@ def solve_words(name, langs, extra=None, timeout_ms=60000):
     if extra is not None:
         for c in extra(xs):
             s.add(c)
+    for words in exclude:  # earlier witnesses that did not reproduce: ask for a different one
+        s.add(z3.Or(*[x != z3.StringVal(w) for x, w in zip(xs, words)]))
     t0 = time.perf_counter()
     r = s.check()
     dt = time.perf_counter() - t0
